@@ -216,13 +216,31 @@ func c09Run(c *fw.Ctx) error {
 	for _, o1 := range ops {
 		for _, o2 := range ops {
 			for _, o3 := range ops {
-				for ci, ctx := range []string{"%s", "[ %s ]", "select( %s )"} {
+				tctx := []string{"%s", "[ %s ]", "select( %s )"}
+				if c.Thorough() {
+					tctx = c09Contexts
+				}
+				for ci, ctx := range tctx {
 					if !c.Thorough() && ci > 0 {
 						continue
 					}
 					bare := fmt.Sprintf(ctx, ".a "+o1+" .b "+o2+" .c "+o3+" .d")
 					want := fmt.Sprintf(ctx, c09Group([]string{".a", ".b", ".c", ".d"}, []string{o1, o2, o3}, tieRight))
 					do(c09Case{Kind: "triple", A: bare, B: want}, fmt.Sprintf("triple/%s_%s_%s", o1, o2, o3), 1e6)
+				}
+			}
+		}
+	}
+	// quadruples (thorough): every sequence of four binary operators at top level
+	if c.Thorough() {
+		for _, o1 := range ops {
+			for _, o2 := range ops {
+				for _, o3 := range ops {
+					for _, o4 := range ops {
+						bare := ".a " + o1 + " .b " + o2 + " .c " + o3 + " .d " + o4 + " .e"
+						want := c09Group([]string{".a", ".b", ".c", ".d", ".e"}, []string{o1, o2, o3, o4}, tieRight)
+						do(c09Case{Kind: "quad", A: bare, B: want}, fmt.Sprintf("quad/%s_%s_%s_%s", o1, o2, o3, o4), 5e6)
+					}
 				}
 			}
 		}
@@ -332,7 +350,7 @@ func c09Run(c *fw.Ctx) error {
 			do(c09Case{Kind: "reject", A: e}, fmt.Sprintf("accepted/operator-missing-operand/pattern%d", pi), 7e6)
 		}
 	}
-	c.Res.Bound = fmt.Sprintf("all %d^2 operator pairs x %d contexts, all %d^3 triples, %d layout seeds x every boundary x %d fillers (single, and double), redundant parentheses, bracket deletion/duplication, %d operators x 13 missing-operand patterns", len(ops), len(c09Contexts), len(ops), len(c09LayoutExprs), len(c09Fillers), len(ops))
+	c.Res.Bound = fmt.Sprintf("all %d^2 operator pairs x %d contexts, all %d^3 triples%s, %d layout seeds x every boundary x %d fillers (single, and double), redundant parentheses, bracket deletion/duplication, %d operators x 13 missing-operand patterns", len(ops), len(c09Contexts), len(ops), map[bool]string{false: " at top level", true: " in every context and all quadruples at top level"}[c.Thorough()], len(c09LayoutExprs), len(c09Fillers), len(ops))
 	return nil
 }
 
@@ -349,7 +367,7 @@ func init() {
 	registerLater(func() {
 		fw.Register(&fw.Check{
 			ID: "C09", Level: "model_checking",
-			Rule: "token sequences: every ordered pair of the 21 binary operator spellings in 10 nesting contexts and every triple: the bare spelling must build the same ExpressionNode tree (exported fields) as the spelling bracketed by a pinned copy of the precedence relation (equivalence classes, ties grouped in the one direction the parser uses; chains of one operator either way); " +
+			Rule: "token sequences: every ordered pair of the 21 binary operator spellings in 10 nesting contexts, every triple (thorough: in every context) and (thorough) every quadruple: the bare spelling must build the same ExpressionNode tree (exported fields) as the spelling bracketed by a pinned copy of the precedence relation (equivalence classes, ties grouped in the one direction the parser uses; chains of one operator either way); " +
 				"every token boundary of 47 seed expressions x 7 fillers (space, newline, tab, CRLF, `# comment`), singly and in pairs; redundant parentheses around the whole and around every operand; no-space at brackets; every bracket deleted or duplicated and every binary operator with a missing operand must be rejected; distinct = distinct spelling",
 			Assumptions: []string{"the precedence relation is pinned as classes in c09.go (a renumbering that keeps the order is not an alarm)", "tree equality through exported fields of ExpressionNode/Operation; operator tokens' own text is compared without white space"},
 			Budget:      func(t string) time.Duration { return 20 * time.Minute },
